@@ -287,6 +287,20 @@ def _signal_names(spec):
     return out
 
 
+def decision_names(spec):
+    out = [s["name"] for s in spec["states"] + spec["controls"] + spec["algebraics"]]
+    out += [s["name"] for s in spec["variables"] if s.get("role") != "horizon"]
+    return set(out)
+
+
+def ensure_decision(rng, spec, body):
+    """Opti rejects constraints without decision variables: make sure a state element is involved."""
+    dn = decision_names(spec)
+    if any(n[0] == "s" and n[1] in dn for n in E.walk(body)):
+        return body
+    return ["+", body, rng.choice(spec["leaves"]["x"])]
+
+
 def gen_constraint(rng, spec, cid, grids=("control",), allow_offsets=True, allow_point=True):
     sig = signal_leaves(spec)
     glob = global_leaves(spec)
@@ -295,18 +309,18 @@ def gen_constraint(rng, spec, cid, grids=("control",), allow_offsets=True, allow
     c = {"cid": cid}
     if allow_point and r < 0.3:
         # boundary / point constraint
-        def bnd():
-            k = rng.choice(["at_t0", "at_tf"])
+        def bnd(k=None):
+            k = k or rng.choice(["at_t0", "at_tf"])
             body = E.rand_expr(rng, sig, depth=1)
             if not E.is_signal(body, names):
                 body = ["+", body, rng.choice(sig)]
-            return [k, body]
+            return [k, ensure_decision(rng, spec, body)]
         n = rng.choice([1, 1, 2])
         rr = rng.random()
         lhs = []
         for _ in range(n):
             if rr < 0.3:
-                lhs.append(["-", bnd(), bnd()])      # periodicity-like combination
+                lhs.append(["-", bnd("at_tf"), bnd("at_t0")])      # periodicity-like combination
             else:
                 lhs.append(bnd())
         rhs = [(rng.choice(glob) if (glob and rng.random() < 0.4) else E.rand_const(rng)) for _ in range(n)]
@@ -328,10 +342,11 @@ def gen_constraint(rng, spec, cid, grids=("control",), allow_offsets=True, allow
         if allow_offsets and grid == "control" and rng.random() < 0.3:
             o = rng.choice([1, -1, 1, -1, 2, -2, spec["method"]["N"], spec["method"]["N"] + 1])
             inner = E.rand_expr(rng, sig, depth=1)
-            if not E.is_signal(inner, names):
-                inner = rng.choice(sig)
-            body = ["-", ["off", inner, o], body]
-        lhs.append(body)
+            # a state leaf makes the shifted operand differ from the unshifted one at every node
+            # (controls / per-interval quantities at the final node repeat the last interval's value)
+            inner = ["+", inner, ["*", E.rand_const(rng), rng.choice(spec["leaves"]["x"])]]
+            body = ["-", ["off", inner, o], ensure_decision(rng, spec, body)]
+        lhs.append(ensure_decision(rng, spec, body))
     form = rng.choice(["le", "ge", "eq", "box"])
     c.update({"form": form, "lhs": lhs, "grid": grid if rng.random() < 0.8 or grid != "control" else None})
     bound = lambda: (rng.choice(glob) if (glob and rng.random() < 0.3) else E.rand_const(rng, -2, 2))
